@@ -35,6 +35,12 @@ using std::vector;
 
 namespace Tins {
 
+#ifdef TINS_VERIF_HOOKS
+namespace VerifHooks {
+serialize_monitor_type serialize_monitor = 0;
+}
+#endif // TINS_VERIF_HOOKS
+
 PDU::metadata::metadata() 
 : header_size(0), current_pdu_type(PDU::UNKNOWN), next_pdu_type(PDU::UNKNOWN) {
 
@@ -141,11 +147,31 @@ void PDU::serialize(uint8_t* buffer, uint32_t total_sz) {
     #ifdef TINS_DEBUG
     assert(total_sz >= sz);
     #endif
+    #ifdef TINS_VERIF_HOOKS
+    if (VerifHooks::serialize_monitor && total_sz < sz) {
+        VerifHooks::serialize_monitor(pdu_type(), 1, total_sz);
+    }
+    #endif // TINS_VERIF_HOOKS
     prepare_for_serialize();
     if (inner_pdu_) {
         inner_pdu_->serialize(buffer + header_size(), total_sz - sz);
     }
+    #ifdef TINS_VERIF_HOOKS
+    vector<uint8_t> verif_snapshot;
+    const uint32_t verif_hs = header_size();
+    if (VerifHooks::serialize_monitor && inner_pdu_ && total_sz >= sz && verif_hs <= total_sz - (sz - verif_hs)) {
+        verif_snapshot.assign(buffer + verif_hs, buffer + verif_hs + (total_sz - sz));
+    }
+    #endif // TINS_VERIF_HOOKS
     write_serialization(buffer, total_sz);
+    #ifdef TINS_VERIF_HOOKS
+    for (size_t verif_i = 0; verif_i < verif_snapshot.size(); ++verif_i) {
+        if (buffer[verif_hs + verif_i] != verif_snapshot[verif_i]) {
+            VerifHooks::serialize_monitor(pdu_type(), 2, static_cast<uint32_t>(verif_hs + verif_i));
+            break;
+        }
+    }
+    #endif // TINS_VERIF_HOOKS
 }
 
 void PDU::parent_pdu(PDU* parent) {
